@@ -230,6 +230,25 @@ func vBuildDoc(kind string, depth int, tag string, o vDocOpts) vJ {
 		if !kw.Req {
 			present = vNondetBool(tag + "." + kw.Name + ".present")
 		}
+		if depth > 0 && vWrongWhich > 0 {
+			// arbitrary-JSON mode (C07): one member at a time takes a value of an arbitrary JSON kind,
+			// is duplicated, or is spelled with another letter case
+			vWrongCtr++
+			if vWrongCtr == vWrongWhich {
+				vNote("corrupted member: " + kw.Name)
+				switch vWrongKind {
+				case 6: // duplicate member (the second one of another kind)
+					vJAdd(doc, true, kw.Name, vBuildVal(kw, depth, tag+"."+kw.Name, o))
+					vJAdd(doc, true, kw.Name, vWrongVal(vChoose(6, "wrong.dupkind"), tag+".wrong"))
+				case 7: // a member name that differs from the keyword by letter case only
+					vCaseFolded = true
+					vJAdd(doc, true, vUpperFirst(kw.Name), vBuildVal(kw, depth, tag+"."+kw.Name, o))
+				default:
+					vJAdd(doc, true, kw.Name, vWrongVal(vWrongKind, tag+".wrong"))
+				}
+				continue
+			}
+		}
 		vJAdd(doc, present, kw.Name, vBuildVal(kw, depth, tag+"."+kw.Name, o))
 	}
 	if depth > 0 && vExtensible[kind] {
@@ -426,7 +445,85 @@ func vVar(n int, tag string) int {
 	return 0
 }
 
+// arbitrary-JSON mode
+var vWrongWhich, vWrongKind, vWrongCtr int
+var vCaseFolded bool
+
+func vWrongInit(members int) {
+	vWrongCtr, vCaseFolded = 0, false
+	vWrongWhich = vChoose(members+1, "wrong.which")
+	vWrongKind = 0
+	if vWrongWhich > 0 {
+		vWrongKind = vChoose(8, "wrong.kind")
+	}
+}
+
+func vUpperFirst(s string) string {
+	b := []byte(s)
+	for i := range b {
+		if b[i] >= 'a' && b[i] <= 'z' {
+			b[i] -= 32
+			return string(b)
+		}
+		if b[i] >= 'A' && b[i] <= 'Z' {
+			b[i] += 32
+			return string(b)
+		}
+	}
+	return s + "X"
+}
+
+// a value of the given JSON kind: 0 null, 1 bool, 2 number, 3 string, 4 array, 5 object
+func vWrongVal(kind int, tag string) vJ {
+	switch kind {
+	case 0:
+		return vJNull()
+	case 1:
+		return vJBool(vNondetBool(tag + ".b"))
+	case 2:
+		if vChoose(2, tag+".numkind") == 0 {
+			return vJInt(vNondetInt64(tag + ".i"))
+		}
+		f := vNondetFloat64(tag + ".f")
+		vAssume(vFinite(f))
+		return vJFloat(f)
+	case 3:
+		switch vChoose(3, tag+".strkind") {
+		case 0:
+			return vJStr("")
+		case 1:
+			return vJStr("%zz junk \\ \"") // not a URL
+		}
+		return vJStr("urn:a\\b") // a URL with a character that needs escaping in JSON
+	case 4:
+		switch vChoose(4, tag+".arrkind") {
+		case 0:
+			return vJArr([]vJ{})
+		case 1:
+			return vJArr([]vJ{vJStr(vNondetOStr(tag + ".s")), vJNull()})
+		case 3:
+			return vJArr([]vJ{vJStr("")})
+		}
+		return vJArr([]vJ{vJObj(), vJInt(0)})
+	}
+	switch vChoose(3, tag+".objkind") {
+	case 0:
+		return vJObj()
+	case 1:
+		o := vJObj()
+		vJAdd(o, true, "k", vJStr(vNondetOStr(tag+".s")))
+		vJAdd(o, true, "$ref", vJInt(1))
+		return o
+	}
+	o := vJObj()
+	vJAdd(o, true, "type", vJArr([]vJ{vJStr("")}))
+	vJAdd(o, true, "items", vJArr([]vJ{}))
+	vJAdd(o, true, "x-a", vJNull())
+	return o
+}
+
 func vDocParams() vDocOpts {
 	vVarInit()
+	vWrongWhich = 0
 	return vDocOpts{exts: vParam("exts", 1), extras: vParam("extras", 1), nameLen: vParam("name_len", 1), sizes: vParam("sizes", 1)}
 }
